@@ -31,8 +31,15 @@ SDL = {
           argn(x: Int!): Int!
           echo(f: Float): Float
           sum(xs: [Float!], inp: Inp): Float
+          t: Trim
+          tn: Trim!
+          tl: [Trim!]
+          tln: [Trim!]!
+          st: Strict
         }
-        type Obj { a: Int, s: String!, f: Float, o: Obj, on: Obj!, ln: [Int!], id: ID!, lo: [Obj] }
+        scalar Trim
+        scalar Strict
+        type Obj { a: Int, s: String!, f: Float, o: Obj, on: Obj!, ln: [Int!], id: ID!, lo: [Obj], tn: Trim!, tl: [Trim!] }
         enum Color { RED GREEN }
         input Inp { a: Int!, b: [Inp2!], f: Float }
         input Inp2 { a: Int, zz: String }
@@ -40,7 +47,8 @@ SDL = {
     """,
     "B": """
         interface Node { id: ID! }
-        type User implements Node { id: ID!, name: String, friends: [Node!]!, best: Node }
+        scalar Trim
+        type User implements Node { id: ID!, name: String, friends: [Node!]!, best: Node, nick: Trim!, tags: [Trim!]! }
         type Bot implements Node { id: ID!, model: String!, owner: User }
         union Any = User | Bot
         type Query { node(id: ID): Node, nodes: [Node]!, any: Any, me: User!, anys: [Any!] }
@@ -52,14 +60,16 @@ TYPES = {
     "A": {
         "Query": {"a": "Int", "s": "String!", "f": "Float", "fn": "Float!", "b": "Boolean", "o": "Obj",
                   "on": "Obj!", "l": "[Int]", "ln": "[Int!]!", "lf": "[Float]", "lo": "[Obj!]",
-                  "lol": "[[Obj]]", "e": "Color", "arg": "Int", "argn": "Int!", "echo": "Float", "sum": "Float"},
+                  "lol": "[[Obj]]", "e": "Color", "arg": "Int", "argn": "Int!", "echo": "Float", "sum": "Float",
+                  "t": "Trim", "tn": "Trim!", "tl": "[Trim!]", "tln": "[Trim!]!", "st": "Strict"},
         "Obj": {"a": "Int", "s": "String!", "f": "Float", "o": "Obj", "on": "Obj!", "ln": "[Int!]",
-                "id": "ID!", "lo": "[Obj]"},
+                "id": "ID!", "lo": "[Obj]", "tn": "Trim!", "tl": "[Trim!]"},
         "Mutation": {"set": "Int", "fail": "Int!", "mo": "Obj"},
     },
     "B": {
         "Query": {"node": "Node", "nodes": "[Node]!", "any": "Any", "me": "User!", "anys": "[Any!]"},
-        "User": {"id": "ID!", "name": "String", "friends": "[Node!]!", "best": "Node"},
+        "User": {"id": "ID!", "name": "String", "friends": "[Node!]!", "best": "Node", "nick": "Trim!",
+                 "tags": "[Trim!]!"},
         "Bot": {"id": "ID!", "model": "String!", "owner": "User"},
         "Node": {"id": "ID!"},
         "Any": {},
@@ -69,7 +79,25 @@ POSSIBLE = {"B": {"Node": ["User", "Bot"], "Any": ["User", "Bot"]}}
 ARGS = {"A": {("Query", "arg"): "(x: 1)", ("Query", "argn"): "(x: 2)", ("Query", "echo"): "(f: 1.5)",
               ("Mutation", "set"): "(x: 3)"},
         "B": {("Query", "node"): '(id: "n1")'}}
-SCALARS = {"Int", "Float", "String", "Boolean", "ID", "Color"}
+SCALARS = {"Int", "Float", "String", "Boolean", "ID", "Color", "Trim", "Strict"}
+
+
+# custom scalars: Trim's serializer maps blank text to None (a non-null Python value that serialises
+# to null), Strict's raises on designated values (ScalarSerializationError -> RuntimeError)
+def _trim_serialize(v):
+    return str(v).strip() or None
+
+
+def _strict_serialize(v):
+    if v == "bad":
+        raise ValueError("Strict cannot represent %r" % (v,))
+    return v
+
+
+def custom_scalars():
+    from py_gql.schema import ScalarType
+    return [ScalarType("Trim", serialize=_trim_serialize, parse=lambda v: v),
+            ScalarType("Strict", serialize=_strict_serialize, parse=lambda v: v)]
 
 
 def parse_type(t):
@@ -125,7 +153,8 @@ def _default_for(sname, gql_type, depth=0):
     if isinstance(t, ListType):
         return [_default_for(sname, t.type, depth + 1), _default_for(sname, t.type, depth + 1)]
     if isinstance(t, ScalarType):
-        return {"Int": 7, "Float": 1.5, "String": "str", "Boolean": True, "ID": "id1"}[t.name]
+        return {"Int": 7, "Float": 1.5, "String": "str", "Boolean": True, "ID": "id1",
+                "Trim": "  padded ", "Strict": "fine"}[t.name]
     if isinstance(t, EnumType):
         return "GREEN"
     if isinstance(t, ObjectType):
@@ -299,6 +328,8 @@ def _resolve(sname, ctx, info, args):
         value = _default_for(sname, info.field_definition.type)
     if unwrap_type(info.field_definition.type).name == "Float":
         _flat_floats(value, ctx["floats"])
+    if unwrap_type(info.field_definition.type).name == "Strict" and value == "bad":
+        ctx.setdefault("unserialisable", []).append(list(info.path))
     return value
 
 
@@ -334,7 +365,8 @@ def get_schema(sname, flavour):
     those fields get the coroutine version."""
     k = (sname, flavour)
     if k not in _SCHEMA_CACHE:
-        schema = build_schema(SDL[sname])
+        schema = build_schema(SDL[sname], additional_types=[
+            s_ for s_ in custom_scalars() if ("scalar " + s_.name) in SDL[sname]])
         sync_r, async_r = make_resolvers(sname)
         schema.default_resolver = sync_r
         reg = {"A": [("Query", "o"), ("Query", "a"), ("Obj", "a"), ("Query", "lo"), ("Obj", "s"), ("Query", "f")],
@@ -458,7 +490,10 @@ def gen_world(rng, paths, nfail):
     for p, pt in rng.sample(paths, min(nfail, len(paths))):
         t = pt[1] if pt[0] == "nn" else pt
         r = rng.random()
-        if r < 0.08:
+        if named_of(t) == "Trim" and r < 0.6:
+            act = ["value", rng.choice([["a", " "], ["", "  ", "b"], [" x "]]) if t[0] == "list"
+                   else rng.choice(["   ", "", " ok "])]
+        elif r < 0.08:
             act = ["raise_shared", rng.choice(["not found", "denied"]), rng.choice([None, {"code": 404}])]
         elif r < 0.3:
             smp = rng.choice(ERROR_SAMPLES)
@@ -467,6 +502,10 @@ def gen_world(rng, paths, nfail):
             act = ["raise", rng.choice(MSGS), rng.choice(EXTS)]
         elif r < 0.75:
             act = ["null"]
+        elif named_of(t) == "Trim" and t[0] == "list":
+            act = ["value", rng.choice([["a", " "], ["", "  ", "b"], [" x ", "y"], []])]
+        elif named_of(t) == "Trim":
+            act = ["value", rng.choice(["   ", "", "\t\n", " ok "])]
         elif t[0] == "list" and named_of(t) in ("Int", "Float"):
             act = ["value", rng.choice([[1, None], [None, None], [], [None, 2, 3]])]
         elif t[0] == "list":
@@ -658,7 +697,21 @@ def _family_corpus():
     return out
 
 
-EXEC_CORPUS = _family_corpus() + [
+CUSTOM_SCALAR_CORPUS = [
+    # a serializer returning None for a non-null value: null at T!, [T!], [T!]! and nested, one error each
+    ("A", "{ tn t tl tln o { tn tl } lo { tn } }",
+     {"tn": ["value", "   "], "t": ["value", ""], "tl": ["value", ["a", " "]], "tln": ["value", [" ", "b", ""]],
+      "o/tn": ["value", "\t"], "o/tl": ["value", [" "]], "lo/1/tn": ["value", ""]}),
+    ("A", "{ x: tn tln }", {"x": ["value", " kept "], "tln": ["value", []]}),
+    ("A", "mutation M { mo { tn tl } }", {"mo/tn": ["value", " "], "mo/tl": ["value", ["", "z"]]}),
+    ("B", "{ me { id nick tags friends { ... on User { nick } } } }",
+     {"me/nick": ["value", "  "], "me/tags": ["value", ["t", " "]], "me/friends/0/nick": ["value", ""]}),
+    # a serializer that raises: RuntimeError, like any unserialisable resolver value
+    ("A", "{ st a }", {"st": ["value", "bad"]}),
+    ("A", "{ st }", {"st": ["value", "good"]}),
+]
+
+EXEC_CORPUS = CUSTOM_SCALAR_CORPUS + _family_corpus() + [
     # one ResolverError instance raised by several fields, then again by a later, shorter request
     ("A", "{\n  a\n  s\n  o {\n         a\n  }\n}", {"a": ["raise_shared", "not found", {"code": 404}],
                                                         "s": ["raise_shared", "not found", {"code": 404}],
